@@ -222,6 +222,16 @@ def pointwise(ctx, c, nev):
         wts = np.where(g.costhetaTrSubV[g.event_mask] < ct, 0.0, wts)
         if not close(code, wts.sum() * g.mcnorm / nb, 1e-12):
             ctx.violation("RegionGeom.mcintegral", "geo-only-sum", "geometry-only integral is not mcnorm/N * sum of weights (division by the number thrown)", {"cfg": list(c), "costheta": ct})
+        # the geometry-only value has nothing to do with the trigger values: whole-number counts, flags, any threshold
+        for tnm, trg, thr_ in (("int64 counts", np.arange(k, dtype=np.int64) % 5, 2), ("bool flags", (np.arange(k) % 2).astype(bool), 0.5),
+                              ("float32", np.ones(k, dtype=np.float32), 0.0)):
+            code2 = g.mcintegral(trg, ct, np.ones(k), thr_, 1.0, 1.0)[1]
+            ctx.count("geo-only-with-" + tnm.split()[0] + "-triggers")
+            if not close(code2, code, 1e-12):
+                ctx.violation("RegionGeom.mcintegral", "geo-only-depends-on-trigger-values",
+                              f"the geometry-only integral changes ({float(code)!r} -> {float(code2)!r}) when the trigger values are {tnm}",
+                              {"cfg": list(c), "costheta": ct, "trigger_values": tnm, "events": k})
+                break
     # ---- image of the cube: faces map to the ends of the region, monotone in between
     lv = np.linspace(0.0, 1.0, 41)
     uu = np.stack([lv, lv, lv, lv])
